@@ -106,7 +106,7 @@ class C11(Check):
     level_text = ('Every failure kind x position k of a multi-route operation is exercised across seeds (the per-operation '
                   'failure positions are few and swept: k in 0..2 for embedded applications and constructor lists); histories are sampled.')
     level_note = 'Trusted: the model routing tables and the dispatch model shared with C06.'
-    required_probes = ('context-rendered-by-factory', 'embed-with-rebind-render', 'failed-add-unchanged', 'sub-kth-fails-unchanged', 'ctor-failed', 'route-bound-twice', 'embedded-then-child-changed',
+    required_probes = ('strict-application', 'context-rendered-by-factory', 'embed-with-rebind-render', 'failed-add-unchanged', 'sub-kth-fails-unchanged', 'ctor-failed', 'route-bound-twice', 'embedded-then-child-changed',
                        'embed-depth-2', 'add-at-index')
 
     # ---- generation --------------------------------------------------------
@@ -114,18 +114,20 @@ class C11(Check):
         S = Streams(seed)
         c, rng, frng = S['config'], S['ops'], S['faults']
         napps = c.randint(2, 4)
-        apps = [{'mode': c.choice(['redirect', 'redirect', 'rewrite']), 'nr_mw': c.random() < 0.4, 'factory': c.random() < 0.5}
-                for _ in range(napps)]
+        strict_run = c.random() < 0.25
+        apps = [{'mode': c.choice(['strict', 'strict', 'redirect'] if strict_run else ['redirect', 'redirect', 'rewrite']),
+                 'nr_mw': c.random() < 0.4, 'factory': c.random() < 0.5} for _ in range(napps)]
+        pats = R.STRICT_OK if strict_run else sorted(R.CAT)      # strict mode: patterns with a single spelling per match
         routes = []
         for k in range(c.randint(3, 8)):
-            routes.append({'pattern': c.choice(sorted(R.CAT)), 'methods': c.choice(R.METHOD_SETS), 'out': c.choice(R.OUTCOMES + ['ctx'] * 4),
+            routes.append({'pattern': c.choice(pats), 'methods': c.choice(R.METHOD_SETS), 'out': c.choice(R.OUTCOMES + ['ctx'] * 4),
                            'tag': 'R%d' % k, 'route_res': ['rr%d' % k] if c.random() < 0.3 else []})
         ops = []
         tagn = [0]
 
         def entry():
             tagn[0] += 1
-            return {'pattern': rng.choice(sorted(R.CAT)), 'methods': rng.choice(R.METHOD_SETS), 'out': rng.choice(R.OUTCOMES + ['ctx'] * 3),
+            return {'pattern': rng.choice(pats), 'methods': rng.choice(R.METHOD_SETS), 'out': rng.choice(R.OUTCOMES + ['ctx'] * 3),
                     'tag': 't%d' % tagn[0]}
         live = set()
         nops = rng.randint(8, 24 if tier == 'quick' else 64)
@@ -215,6 +217,8 @@ class C11(Check):
                     raise InvalidPlan('application exists')
                 pool.res[i] = set(pool.app_resources(i))
                 pool.mode[i] = cfg['apps'][i]['mode']
+                if pool.mode[i] == 'strict':
+                    res.probe('strict-application')
                 rts = [Route(e['pattern'], R.make_endpoint(e['tag'], e['out']), 'tmpl' if e['out'] == 'ctx' else None,
                              methods=e['methods']) for e in op['entries']]
                 model = [pool.bound_entry(e, i) for e in op['entries']]
